@@ -359,7 +359,7 @@ def split_types(data):
 
 
 def in_state(state, cfgd=None, hold=None, now=0, allow_auto=True, counters=None, closing=False, old_closing=False,
-             pending_attempt=False, old_closed=False):
+             pending_attempt=False, old_closed=False, stale_hold=None):
     """Place the real objects in `state` satisfying the shared invariant (DESIGN app. B):
        Idle(auto): idle-hold armed;  Idle(stopped): nothing armed
        Connect: one connector connecting, connect-retry armed
@@ -428,6 +428,10 @@ def in_state(state, cfgd=None, hold=None, now=0, allow_auto=True, counters=None,
         if state not in (IDLE, CONNECT):
             f.protocol, w.peering.estab_protocol = cur_p, cur_estab
         w.peering.connector = cur_conn
+    if stale_hold is not None and state in (IDLE, CONNECT):
+        # what an earlier session negotiated is still in the FSM until the next connection is made
+        f.hold_time = stale_hold
+        f.keep_alive_time = stale_hold / 3
     if old_closed:
         # an earlier connection of this peer that is completely over (connectionLost delivered): the FSM keeps
         # pointing at its protocol object until the next connection is built
